@@ -52,6 +52,13 @@ let () = iter_lines (fun l ->
   | ["enum"; h] -> let b = bytes_of_hex h in show (getAsnEnumerated b zero (lenN b)) (fun (v, c') -> Printf.sprintf "rc=0 val=%s adv=%s" (str_z v) (str_n c'))
   | ["enum_unfixed"; h] -> let b = bytes_of_hex h in show (getAsnEnumerated_unfixed b zero (lenN b)) (fun (v, c') -> Printf.sprintf "rc=0 val=%s adv=%s" (str_z v) (str_n c'))
   | ["oid"; chk; h] -> let b = bytes_of_hex h in show (getAsnOID b zero (lenN b) (chk <> "0")) (fun ((_, pl), c') -> Printf.sprintf "rc=0 plen=%s adv=%s" (str_n pl) (str_n c'))
+  | ["oidcopy"; dl; h] ->
+      (* asnCopyOid(der, derlen, oid) into a 32-byte block pre-filled with 0xaa *)
+      let b = bytes_of_hex h in
+      show (asnCopyOid b (lenN b) zero (n_of_int (int_of_string dl))) (fun (ret, w) ->
+        let wl = List.map int_of_n w in
+        let full = wl @ List.init (max 0 (32 - List.length wl)) (fun _ -> 0xaa) in
+        Printf.sprintf "ret=%s oid=%s" (str_n ret) (String.concat "" (List.map (Printf.sprintf "%02x") full)))
   | ["algid"; h] -> let b = bytes_of_hex h in show (getAsnAlgorithmIdentifier b zero (lenN b)) (fun ((_, pl), c') -> Printf.sprintf "rc=0 plen=%s adv=%s" (str_n pl) (str_n c'))
   | ["taglen"; h] -> let b = bytes_of_hex h in show (getAsnTagLenUnsafe b (lenN b) zero) (fun v -> "len=" ^ str_n v)
   | "gn" :: len :: h :: _ ->
